@@ -42,11 +42,11 @@ type lenc struct {
 	aesKey, baseIV []byte
 }
 
-func entTerm(k, v []byte, m, u byte, ex uint64) string {
+func logEntTerm(k, v []byte, m, u byte, ex uint64) string {
 	return fmt.Sprintf("(mkEntry %s %s %d %d %d)", B(k), B(v), m, u, ex)
 }
 func delTerm(e badger.VerifLogEntry) string {
-	return fmt.Sprintf("(mkDel %s %d %d)", entTerm(e.Key, e.Value, e.Meta, e.UserMeta, e.ExpiresAt), e.VpOffset, e.VpLen)
+	return fmt.Sprintf("(mkDel %s %d %d)", logEntTerm(e.Key, e.Value, e.Meta, e.UserMeta, e.ExpiresAt), e.VpOffset, e.VpLen)
 }
 func delsTerm(out []badger.VerifLogEntry) string {
 	items := make([]string, len(out))
@@ -275,7 +275,6 @@ func wholeUnits(b *builtLog, out []badger.VerifLogEntry, fid uint32) (int, bool)
 	return 0, false
 }
 
-type J = map[string]interface{}
 
 func (c *Ctx) iterCase(kind string, data []byte, offset uint32, in interface{}) ([]badger.VerifLogEntry, uint32, int) {
 	out, vend, cls := badger.VerifLogIterate(data, 0, offset, nil, nil)
@@ -369,7 +368,7 @@ func runC16(c *Ctx) error {
 			enc, n, err := badger.VerifLogEncodeEntry(r.Key, r.Val, r.Meta, r.Umeta, r.Exp, off, nil, nil)
 			in := J{"k": r.Key, "v": r.Val, "m": r.Meta, "u": r.Umeta, "x": r.Exp, "off": off}
 			if len(r.Key)+len(r.Val) < 1500 {
-				c.Case("Enc", fmt.Sprintf("(Enc %s %d %s %d)", entTerm(r.Key, r.Val, r.Meta, r.Umeta, r.Exp), off, B(enc), n), in)
+				c.Case("Enc", fmt.Sprintf("(Enc %s %d %s %d)", logEntTerm(r.Key, r.Val, r.Meta, r.Umeta, r.Exp), off, B(enc), n), in)
 			} else {
 				c.Count("Enc-large-oracle-only")
 			}
@@ -462,7 +461,7 @@ func runC16(c *Ctx) error {
 			}
 			off := uint32(20 + c.Rng.Intn(100))
 			e, cls := badger.VerifLogSafeRead(buf, off, nil, nil)
-			c.Case("Rd", fmt.Sprintf("(Rd %s %d %d %s %d)", B(buf), off, cls, entTerm(e.Key, e.Value, e.Meta, e.UserMeta, e.ExpiresAt), e.Hlen), J{"buf": buf, "off": off})
+			c.Case("Rd", fmt.Sprintf("(Rd %s %d %d %s %d)", B(buf), off, cls, logEntTerm(e.Key, e.Value, e.Meta, e.UserMeta, e.ExpiresAt), e.Hlen), J{"buf": buf, "off": off})
 
 		case 4, 5, 6: // iterate over well-formed logs: write order, offsets, value pointers
 			us := c.someUnits(1+c.Rng.Intn(5), false, 0)
@@ -644,7 +643,7 @@ func runC16(c *Ctx) error {
 			e, ok := badger.VerifLogDecodeEntry(buf, 20, nil, nil)
 			rt := "None"
 			if ok {
-				rt = Some(entTerm(e.Key, e.Value, e.Meta, e.UserMeta, e.ExpiresAt))
+				rt = Some(logEntTerm(e.Key, e.Value, e.Meta, e.UserMeta, e.ExpiresAt))
 			}
 			c.Case("Dec", fmt.Sprintf("(Dec %s %d %s)", B(buf), 20, rt), J{"buf": buf})
 
